@@ -116,6 +116,9 @@ func (req Request) MarshalSize() int {
 	n += 1 + len(rtspProtocol10) + 2
 
 	if len(req.Body) != 0 {
+		if req.Header == nil {
+			req.Header = make(Header)
+		}
 		req.Header["Content-Length"] = HeaderValue{strconv.FormatInt(int64(len(req.Body)), 10)}
 	}
 
@@ -149,6 +152,9 @@ func (req Request) MarshalTo(buf []byte) (int, error) {
 	pos++
 
 	if len(req.Body) != 0 {
+		if req.Header == nil {
+			req.Header = make(Header)
+		}
 		req.Header["Content-Length"] = HeaderValue{strconv.FormatInt(int64(len(req.Body)), 10)}
 	}
 
